@@ -64,6 +64,44 @@ func runDMHintRuns() {
 
 var _ = mc.Guard
 
+// runDMLongRuns: EVERY length of a long homogeneous run (no hints: the symbols are large), followed
+// by a shift / upper-shift / foreign-class character and one more character - the place where an
+// encoder that buffers, flushes or backtracks in blocks meets the end of the data in the middle
+// of a block. The 2-D writers only; the writer must return a matrix or an error.
+func runDMLongRuns() {
+	var dm writerDef
+	for _, w := range writers {
+		if w.name == "DataMatrix" {
+			dm = w
+		}
+	}
+	maxN := chk.Pick(800, 2340)
+	runs := []string{"A", "a", "*", "@", "1", "é"}
+	tails := []string{"", "aA", "Aa", "!A", "éa", "éA", "a", "1", "é", "{}", "\x01b"}
+	type job struct {
+		run  string
+		from int
+	}
+	var jobs []job
+	for _, r := range runs {
+		for f := 1; f <= maxN; f += 50 {
+			jobs = append(jobs, job{r, f})
+		}
+	}
+	chk.Range(fmt.Sprintf("Data Matrix writer, long runs: run characters {A, a, *, @, 1, é} x EVERY run length 1..%d x %d tails (shift, upper-shift and foreign-class characters followed by one more character), no hints", maxN, len(tails)), len(jobs),
+		func(i int) string { return fmt.Sprintf("%q x %d..", jobs[i].run, jobs[i].from) },
+		func(l *mc.Local, i int) {
+			j := jobs[i]
+			for n := j.from; n < j.from+50 && n <= maxN; n++ {
+				for _, t := range tails {
+					content := strings.Repeat(j.run, n) + t
+					labels := map[string]string{"content": fmt.Sprintf("%d x %q + %+q", n, j.run, t)}
+					run(l, concrete{wd: dm, format: dm.format, content: content, w: 0, h: 0, hints: map[gozxing.EncodeHintType]interface{}{}, labels: labels}, "dm-long-run")
+				}
+			}
+		})
+}
+
 // runHugeCanvases: requested sizes whose pixel count crosses 2^31 (and, thorough, 2^32): index
 // arithmetic in int32 terms, "too large" guards and allocation failures live there. One job runs
 // the writers one after the other (a 2^31-bit matrix is 256 MiB).
